@@ -823,3 +823,72 @@ def rule_inproc_one_push(ctx, cfg, F):
         R.ok("one push of ChannelMessage(data.to_vec(), ports, regions)", f.loc(b), cfg)
     else:
         R.violate("%s:message-shape" % f.path, "the queued message is not built from the whole data slice and both attachment lists (parameters seen: %s)" % sorted(params), f.path, f.loc(b), config=cfg)
+
+
+def rule_peer_closed(ctx, cfg, F):
+    R = ctx.rule("SEND-PEER-CLOSED", "at every follow-up transmission the sender no longer holds the receiving end of the per-message socketpair (it is dropped once the first "
+                 "fragment has carried it over): otherwise the follow-up socket always has a live peer -- the sender itself -- and a send to a vanished receiver blocks forever instead of failing")
+    f, fu = send_fn(F), followup_fn(F)
+    if not f or not fu:
+        R.violate("anchor-missing:send", "send / follow-up transmitter not found", config=cfg)
+        return
+    tr = Tracer(f)
+    funame = strip_generics(fu.path)
+    chan_blocks = {b for b, t in f.calls() if strip_generics(callee_name(t)).endswith("::channel") and strip_generics(callee_name(t)).startswith("platform::")}
+    fu_blocks = {b for b, t in f.calls() if strip_generics(callee_name(t)) == funame}
+    R.count("followup_sites[%s]" % cfg, len(fu_blocks))
+    if not chan_blocks or not fu_blocks:
+        R.violate("%s:no-dedicated-channel" % f.path, "no per-message channel() / follow-up transmission in send", f.path, config=cfg)
+        return
+    # holders of the receiver half: locals whose value derives from channel().1
+    holders = set()
+    for i, l in enumerate(f.locals):
+        if "OsIpcReceiver" in l["t"] and not l["t"].startswith("&"):
+            if any(r.kind == "call" and r.block in chan_blocks and (1,) == r.field_idx()[1:2] for r in tr.roots(i)) or \
+               any(r.kind == "call" and r.block in chan_blocks and (1,) == r.field_idx()[1:2] for r in tr.roots(i, (("f", 0, ""),))):
+                holders.add(i)
+    P = _position_local(f, tr)
+    ex = Explorer(f)
+    bad = {}
+
+    def releases(b):
+        t = f.term(b)
+        if t["t"] == "drop" and t["pl"]["l"] in holders and "OsIpcReceiver" in t["ty"]:
+            return True
+        if t["t"] == "call":
+            nm = strip_generics(callee_name(t))
+            if nm in ("std::option::Option::take", "std::mem::drop", "std::mem::take", "std::mem::replace") and t["args"]:
+                if _root_local(f, tr, t["args"][0]) in holders or op_local(t["args"][0]) in holders:
+                    return True
+        return False
+
+    def step(b, st, env):
+        held, pz = st
+        for s in f.stmts(b):
+            if s["s"] == "assign" and not s["lhs"].get("p") and s["lhs"]["l"] == P:
+                pz = (s["rv"]["r"] == "use" and op_const(s["rv"]["a"][0]) == 0)
+        if b in chan_blocks:
+            held = True
+        if b in fu_blocks and held:
+            bad.setdefault(b, True)
+        if releases(b):
+            held = False
+        return (held, pz)
+
+    def edge(b, s, labs, st, env):
+        held, pz = st
+        for lab in labs:
+            if lab["kind"] == "cmp" and lab["op"] in ("Eq", "Ne") and op_const(lab["b"]) == 0 and P is not None:
+                from rules.ipcl import _is_var
+                if _is_var(f, lab["a"], P) and pz:
+                    is_zero = lab["truth"] if lab["op"] == "Eq" else not lab["truth"]
+                    if not is_zero:
+                        return None
+        return st
+    ex.walk(0, (False, False), step, edge=edge)
+    for b in sorted(fu_blocks):
+        if b in bad:
+            R.violate("%s:followup-while-holding-receive-end" % f.path, "a follow-up fragment can be transmitted while the sender still holds the receive end of the per-message socketpair: "
+                      "if the receiver vanishes mid-message the send blocks forever instead of returning an error", f.path, f.loc(b), config=cfg)
+        else:
+            R.ok("the sender's copy of the per-message receive end is released before any follow-up transmission", f.loc(b), cfg)
